@@ -141,7 +141,7 @@ def random_rotation(rng):
             (2 * (x * z - y * w), 2 * (y * z + x * w), 1 - 2 * (x * x + y * y)))
 
 
-def place_near(recs, name, rng, anchor=None, dist_A=None, chain="L", resnum=900, min_clear_A=2.7, tries=200):
+def place_near(recs, name, rng, anchor=None, dist_A=None, chain="L", resnum=900, min_clear_A=2.7, tries=200, lattice=False):
     """Fragment records placed so that its first declared atom (or first atom) is dist_A from an
     anchor atom of `recs` and no fragment atom is closer than min_clear_A to any atom of recs.
     Returns (fragment records, expect, distance) or (None, None, None)."""
@@ -153,7 +153,9 @@ def place_near(recs, name, rng, anchor=None, dist_A=None, chain="L", resnum=900,
         d = dist_A if dist_A is not None else rng.uniform(2.8, 9.0)
         v = [rng.gauss(0, 1) for _ in range(3)]
         n = math.sqrt(sum(c * c for c in v)) or 1.0
-        rot = random_rotation(rng)
+        # lattice: one of the 24 rotations of the grid, so that the bonds the library builds along its axes
+        # stay exactly along +-x, +-y, +-z (model-built ligands)
+        rot = rng.choice(pdbio.ROTATIONS) if lattice else random_rotation(rng)
         frag, expect = records(name, chain, resnum, rot)
         key = next((r for r in frag if r.aname() in expect), frag[0])
         target = (a.x + int(round(d * 1000 * v[0] / n)), a.y + int(round(d * 1000 * v[1] / n)), a.z + int(round(d * 1000 * v[2] / n)))
